@@ -6,6 +6,8 @@ import GocoinV.Proofs.C19Open
 namespace GocoinV.Proofs.C19
 open GocoinV GocoinV.Qdb GocoinV.QdbSpec
 
+variable {eg : Bool}
+
 /-- bookkeeping fields no `emit` touches -/
 def book (d : DB) := (d.datOpen, d.lastPos, d.volatile, d.opts, d.noSync)
 
@@ -41,8 +43,8 @@ theorem book_writedatfile (db : DB) : book (writedatfile db) = book db := by
     book_bufWriteAll]
   rfl
 
-theorem defragFold_datOpen (s : Nat) (l : List (Key × Rec)) (hl : AllCached l) (d : DB) (w : BufW)
-    (acc : List (Key × Rec)) (hf : d.failed = none) :
+theorem defragFold_datOpen (s : Nat) (l : List (Key × Rec)) (hl : AllCached eg l) (d : DB) (w : BufW)
+    (acc : List (Key × Rec)) (hf : d.failed = none) (he : d.eager = eg) :
     (l.foldl (defragRec (defragSink s)) (d, w, acc)).1.datOpen = d.datOpen := by
   induction l generalizing d w acc with
   | nil => rfl
@@ -58,8 +60,9 @@ theorem defragFold_datOpen (s : Nat) (l : List (Key × Rec)) (hl : AllCached l) 
     have hdo1 : d1.datOpen = d.datOpen :=
       (bufWrite_gen (defragSink s) (fun _ => (none : Option Bytes)) (fun d => d.datOpen)
         (fun _ _ => rfl) (fun _ _ => rfl) d w (kr.2.data.getD [])).2
-    simp only [List.foldl_cons, defragRec_exact s d w acc kr hf hc]
-    exact (ih (fun x hx => hl x (List.mem_cons_of_mem _ hx)) d1 _ _ hf1).trans hdo1
+    simp only [List.foldl_cons, defragRec_exact s d w acc kr hf he hc]
+    exact (ih (fun x hx => hl x (List.mem_cons_of_mem _ hx)) d1 _ _ hf1
+      ((frame_bufWrite (defragSink s) (defragSink_framed s) d w (kr.2.data.getD [])).eager.trans he)).trans hdo1
 
 theorem logOpen_cleanupold (db : DB) (used : List Nat) : (cleanupold db used).logOpen = db.logOpen := by
   unfold cleanupold
@@ -85,8 +88,8 @@ theorem defrag_more (db : DB) (h : Cached db) :
   obtain ⟨hs1, hs2, hs3, hs4, hs5, hs8, hs9⟩ := defragStart_disk db
   have hf0 : (defragStart db).failed = none := hs5.trans h.1
   obtain ⟨d', w', hfold, _, hlp, hrest⟩ :=
-    defragFold_layout (u32 (db.dataSeq + 1)) db.index h.2 (defragStart db) {} [] hf0
-  have hdo := defragFold_datOpen (u32 (db.dataSeq + 1)) db.index h.2 (defragStart db) {} [] hf0
+    defragFold_layout (u32 (db.dataSeq + 1)) db.index h.2 (defragStart db) {} [] hf0 (defragStart_frame db).eager
+  have hdo := defragFold_datOpen (u32 (db.dataSeq + 1)) db.index h.2 (defragStart db) {} [] hf0 (defragStart_frame db).eager
   rw [hfold] at hdo
   rw [hs3, hs2, List.nil_append] at hfold
   have hd'f : d'.failed = none := by
@@ -161,7 +164,7 @@ theorem layout_wf (s base : Nat) (l : List (Key × Rec)) (hw : ∀ kr ∈ l, Rec
     · rw [h]; exact hw (k, r) List.mem_cons_self
     · exact ih _ (fun x hx => hw x (List.mem_cons_of_mem _ hx)) kr h
 
-theorem layout_cached (s base : Nat) (l : List (Key × Rec)) (hc : AllCached l) : AllCached (layout s base l) := by
+theorem layout_cached (s base : Nat) (l : List (Key × Rec)) (hc : AllCached eg l) : AllCached eg (layout s base l) := by
   induction l generalizing base with
   | nil => intro kr h; cases h
   | cons hd t ih =>
@@ -204,7 +207,7 @@ theorem layout_reads (s : Nat) (l : List (Key × Rec)) (hw : ∀ kr ∈ l, RecWF
         (by simp only [List.length_append]; omega) kr h
       simpa [List.append_assoc] using this
 
-theorem defrag_inv (d : DB) (h : Cached d) (hv : d.volatile = false) (hwf : IndexWF d.index) :
+theorem defrag_inv (d : DB) (h : Cached d) (hv : d.volatile = false) (hwf : IndexWF eg d.index) :
     DiskInv (defrag d) ∧ absv (defrag d) = absv d ∧ (defrag d).pending = [] := by
   obtain ⟨d1, d2, d3, d4, d5, d6, d7⟩ := defrag_disk d h
   obtain ⟨m1, m2, m3, m4, m5⟩ := defrag_more d h
@@ -256,6 +259,7 @@ theorem defrag_inv (d : DB) (h : Cached d) (hv : d.volatile = false) (hwf : Inde
   · intro kr hkr
     rw [hDI] at hkr
     obtain ⟨x, hx, rfl⟩ := List.mem_map.mp hkr
+    rw [hk.eager]
     exact (layout_cached _ _ _ h.2 x hx).2
   · intro _
     refine ⟨_, by rw [d7]; exact d6, ?_, by simp⟩
